@@ -218,8 +218,16 @@ func (c *Ctx) ruleMergeTable(id string, d *dstate) {
 							i1 = i
 						}
 					}
-					if i0 < 0 || i1 < 0 || i0 >= len(site.Common.Args) || i1 >= len(site.Common.Args) || !d.isRemoteValue(f, site.Common.Args[i1]) || d.isRemoteValue(f, site.Common.Args[i0]) {
+					switch {
+					case i1 < 0 || i1 >= len(site.Common.Args) || !d.isRemoteValue(f, site.Common.Args[i1]):
 						bad = "IsEntryOutdated is not consulted as (local entry read from the store, remote entry from the payload)"
+					case i0 >= 0 && (i0 >= len(site.Common.Args) || d.isRemoteValue(f, site.Common.Args[i0])):
+						bad = "IsEntryOutdated is not consulted as (local entry read from the store, remote entry from the payload)"
+					case i0 < 0:
+						// the helper looks the local entry up itself (isNewer(remote)): its first argument must not be read out of the remote one
+						if containerReaches(a0, func(v ssa.Value) bool { return v == ssa.Value(g.Params[i1]) }) {
+							bad = "IsEntryOutdated is not consulted as (local entry read from the store, remote entry from the payload)"
+						}
 					}
 				}
 				continue
